@@ -83,7 +83,14 @@ pub fn generate(seed: u64, index: u64, thorough: bool) -> Scenario {
     // yield no Jacobian - a matrix with a column that was never written would differ between
     // heap fill patterns
     let mut r3 = Rng::new(mix(seed, "C10-derivative-failure", index));
-    if r3.chance(0.12) && sc.model.nparams > 0 {
+    // giant scenarios are rare: let them meet the parallel flavour and a failing derivative
+    // more often than ordinary ones, so that a quick batch contains the conjunction
+    let is_giant = sc.n() * sc.s() >= 4096 || sc.model.nparams >= 65 || sc.s() >= 11;
+    if is_giant && !sc.parallel && r3.chance(0.5) {
+        sc.parallel = true;
+        sc.sched = gen_sched(&mut r3, true, false);
+    }
+    if r3.chance(if is_giant { 0.5 } else { 0.12 }) && sc.model.nparams > 0 {
         let (trigger, action) = match kind {
             ModelKind::Hand => (Trigger::Kind(CallKind::Deriv(r3.usize_in(0, sc.model.nparams - 1)), r3.below(4) as u32), FaultAction::Fail),
             ModelKind::Builder => {
